@@ -122,10 +122,10 @@ Proof.
   apply insert_schema_total. exact Hn.
 Qed.
 
-Lemma extract_schema_total d f name s m : name_ok name = true -> schema_ok sp d s = true -> 1 <= f -> d <= f ->
+Lemma extract_schema_flat_total d f name s m : name_ok name = true -> flat_ok sp d s = true -> 1 <= f -> d <= f ->
   exists m', extract_schema f sp name s m = Ok m'.
 Proof.
-  intros Hn H H1 Hle. destruct f as [|f]; [lia|]. unfold schema_ok in H. apply andb_prop in H as [Hia H].
+  intros Hn H H1 Hle. destruct f as [|f]; [lia|]. unfold flat_ok in H. apply andb_prop in H as [Hia H].
   cbn [extract_schema]. unfold inline_array in Hia.
   destruct (s_kind s) as [fmt en| | | |props req addl|items|l|l|l| |] eqn:K;
     try (apply (extract_newtype_total d); assumption).
@@ -142,6 +142,34 @@ Proof.
     + destruct l as [|x l']; [discriminate H|]. destruct (schema_ref_to_ty_total d (S f) x H Hle) as [t Ht]. rewrite Ht. cbn [bind].
       apply insert_schema_total. exact Hn.
     + destruct (all_of_fields_total d (S f) l H Hle []) as [fs Hf]. rewrite Hf. cbn [bind]. apply insert_schema_total. exact Hn.
+Qed.
+
+Lemma create_unique_name_cand cur name n : create_unique_name cur name name = Some n -> In n (candidates name).
+Proof.
+  unfold create_unique_name, candidates. cbn [In].
+  destruct (is_plural name).
+  - destruct (negb (mem_str (pascal (singular name)) cur)); [intros E; injection E as <-; auto|].
+    destruct (negb (mem_str (pascal name ++ pascal (singular name)) cur)); [intros E; injection E as <-; auto|].
+    destruct (negb (mem_str (pascal name ++ lit "Item") cur)); [intros E; injection E as <-; auto|].
+    destruct (negb (mem_str (pascal name ++ pascal name ++ lit "Item") cur)); [intros E; injection E as <-; auto 6|discriminate].
+  - destruct (negb (mem_str (pascal name ++ lit "Item") cur)); [intros E; injection E as <-; auto|].
+    destruct (negb (mem_str (pascal name ++ pascal name ++ lit "Item") cur)); [intros E; injection E as <-; auto 6|discriminate].
+Qed.
+
+(* components: arrays with inline items recurse, one unit of fuel and of depth per level *)
+Lemma extract_schema_total : forall d f name s m, schema_ok sp d name s = true -> d <= f ->
+  exists m', extract_schema f sp name s m = Ok m'.
+Proof.
+  induction d as [|d IH]; intros f name s m H Hle; [discriminate H|].
+  cbn [schema_ok] in H. apply andb_prop in H as [Hn H].
+  destruct (s_kind s) as [fmt en| | | |props req addl|items|l|l|l| |] eqn:K;
+    try (apply (extract_schema_flat_total (S d)); [exact Hn|exact H|lia|exact Hle]).
+  destruct items as [[n|item]|];
+    try (apply (extract_schema_flat_total (S d)); [exact Hn|exact H|lia|exact Hle]).
+  apply andb_prop in H as [Hw Hc]. destruct f as [|f]; [lia|]. cbn [extract_schema]. rewrite K.
+  destruct (create_unique_name (map fst m) name name) as [n|] eqn:E.
+  - apply IH; [|lia]. rewrite forallb_forall in Hc. apply Hc. eapply create_unique_name_cand; eauto.
+  - apply (extract_newtype_total (S d)); assumption.
 Qed.
 
 (* ---------- operations ---------- *)
@@ -251,7 +279,7 @@ Proof.
   destruct res as [[n|r]|].
   - destruct (schema_ref_to_ty_total d f (Ref n) Hresp Hle) as [t Ht]. rewrite Ht. cbn [bind]. done_ok.
   - apply andb_prop in Hresp as [Hs Hw].
-    destruct (extract_schema_total d f (fresh_name (map fst (h_schemas h)) (pascal name ++ lit "Response")) r (h_schemas h)
+    destruct (extract_schema_flat_total d f (fresh_name (map fst (h_schemas h)) (pascal name ++ lit "Response")) r (h_schemas h)
                 (name_ok_response _ _) Hs H1 Hle) as [m' Hm]. rewrite Hm. cbn [bind].
     destruct (is_primitive_total d r f Hw Hle) as [prim Hprim]. rewrite Hprim. cbn [bind].
     destruct (prim || is_array_schema r); [|cbn [bind]; done_ok].
@@ -281,8 +309,7 @@ Proof.
   unfold spec_ok. intros H H1 Hle. apply andb_prop in H as [H Hsec]. apply andb_prop in H as [Hcomp Hops].
   rewrite forallb_forall in Hcomp, Hops. unfold extract_without_treeshake.
   destruct (fold_total (fun m (ns : str * schema) => extract_schema f sp (fst ns) (snd ns) m) (components sp)) with (a0 := @nil (str * record)) as [schemas Hs].
-  { intros m ns Hin. specialize (Hcomp ns Hin). apply andb_prop in Hcomp as [Hc Hsch]. apply andb_prop in Hc as [Hn _].
-    apply (extract_schema_total d); assumption. }
+  { intros m ns Hin. specialize (Hcomp ns Hin). apply (extract_schema_total d); assumption. }
   rewrite Hs. cbn [bind].
   match goal with |- exists h, (do h1 <- fold_left _ _ (Ok ?h0); _) = Ok h =>
     destruct (fold_total (fun h (io : path_item * operation) => extract_operation f sp (fst io) (snd io) h) (all_operations sp)) with (a0 := h0) as [h1 Hh1] end.
